@@ -71,6 +71,9 @@ theorem hashToCurve_none (msg : Bytes) (h : hashToCurve msg = none) :
   rw [hashToCurve_eq, Option.map_eq_none_iff] at h
   exact search_none (msgHash msg) (2 ^ 16) 0 h j (Nat.zero_le _) (by omega)
 
+-- (no example can exhibit the hypothesis of `hashToCurve_none`: a message all of whose 2^16 candidates fail has
+-- probability 2^-65536; the theorem says that this is the ONLY way `hash_to_curve` can fail)
+
 /-- The counter is appended as exactly four bytes, least significant first, and the encoding is injective
 below `2^32` (a fortiori on the `2^16` counters tried), so distinct counters hash distinct strings. -/
 theorem hashToCurve_counter_le32 :
@@ -240,6 +243,11 @@ theorem mintKeys_spec (M : Nat → Point → Point) (seed : Bytes) (idx : Nat) (
   refine ⟨rfl, hlen, ha, ?_, hv, ks, hks, MintKeys.keysFrom_privs M ks _ hk⟩
   rw [ha]
   decide
+
+-- evaluated (non-vacuity of the hypothesis `mintKeys … = some keys`): keyset 0 of the BIP32 test-vector-1 seed exists;
+-- its id is the value gonuts computes for the same seed (compared on every run by stream `deriv`)
+#guard ((MintKeys.mintKeys mulFast SelfTest.bip32Seed 0).bind MintKeys.keysetIdOf) == some "006052924f84e702"
+#guard ((MintKeys.mintKeys mulFast SelfTest.bip32Seed 0).map (·.length)) == some 60
 
 /-- The id of a generated keyset is the same whatever order its 60 (amount, public key) pairs are enumerated in —
 `GenerateKeyset` collects them in a Go map before calling `DeriveKeysetId`. -/
